@@ -124,7 +124,9 @@ def PathInst.makeFeasible (P : PathInst) (high : Rat) (pick : Nat â†’ List Nat â
         let loading := init - Q.g.demand u
         let newLoad : Rat := if loading < 0 then -loading else if cap < loading then cap - loading else 0
         let nm := freshDummy Q.g u (Q.g.nodes.length + 1) ("mf_Dum_" ++ toString u)
-        let g1 := (addNodeStep Q.g nm (-newLoad) 0 none).1
+        match addNodeStep Q.g nm (-newLoad) 0 none with
+        | (_, .error e) => .error e          -- name still taken: `add_node` raises
+        | (g1, .ok _) =>
         let k := g1.nodes.length - 1
         let g2 := gAdd g1 (nameOf g1 0) nm 0 high
         let g3 := gAdd g2 nm (nameOf g2 u) 0 high
